@@ -659,11 +659,51 @@ func (t UnicodeVariations) GetGlyphVariant(r, selector rune) (GID, uint8) {
 }
 
 // Handle legacy font with remap
-// TODO: the Iter() and RuneRanges() method does not include the additional mapping
+//
+// The remapers embed the [Cmap] interface, so that they do not implement
+// [CmapRuneRanger] : the rune ranges of the wrapped cmap would miss the additional mapping.
+
+// remaperIter yields the runes added by a remaper,
+// then the ones of the wrapped cmap
+type remaperIter struct {
+	CmapIter // over the wrapped cmap
+
+	runes  []rune // not mapped by the wrapped cmap
+	glyphs []GID  // with the same length as runes
+	pos    int    // into runes
+}
+
+// newRemaperIter tries the runes up to [last] (included), which must
+// be greater or equal to the ones [remaper] adds to [wrapped].
+func newRemaperIter(remaper, wrapped Cmap, last rune) *remaperIter {
+	out := remaperIter{CmapIter: wrapped.Iter()}
+	for r := rune(0); r <= last; r++ {
+		if _, ok := wrapped.Lookup(r); ok {
+			continue
+		}
+		if g, ok := remaper.Lookup(r); ok {
+			out.runes = append(out.runes, r)
+			out.glyphs = append(out.glyphs, g)
+		}
+	}
+	return &out
+}
+
+func (it *remaperIter) Next() bool { return it.pos < len(it.runes) || it.CmapIter.Next() }
+
+func (it *remaperIter) Char() (rune, GID) {
+	if it.pos < len(it.runes) {
+		it.pos++
+		return it.runes[it.pos-1], it.glyphs[it.pos-1]
+	}
+	return it.CmapIter.Char()
+}
 
 type remaperSymbol struct {
 	Cmap
 }
+
+func (rs remaperSymbol) Iter() CmapIter { return newRemaperIter(rs, rs.Cmap, 0xFF) }
 
 func (rs remaperSymbol) Lookup(r rune) (GID, bool) {
 	// try without map first
@@ -688,6 +728,9 @@ type remaperPUASimp struct {
 	Cmap
 }
 
+// the legacy Arabic encodings only map runes from the BMP
+func (rs remaperPUASimp) Iter() CmapIter { return newRemaperIter(rs, rs.Cmap, 0xFFFF) }
+
 func (rs remaperPUASimp) Lookup(r rune) (GID, bool) {
 	// try without map first
 	if g, ok := rs.Cmap.Lookup(r); ok {
@@ -704,6 +747,8 @@ func (rs remaperPUASimp) Lookup(r rune) (GID, bool) {
 type remaperPUATrad struct {
 	Cmap
 }
+
+func (rs remaperPUATrad) Iter() CmapIter { return newRemaperIter(rs, rs.Cmap, 0xFFFF) }
 
 func (rs remaperPUATrad) Lookup(r rune) (GID, bool) {
 	// try without map first
